@@ -4,26 +4,31 @@ proof stage     coq/props/C12.v  (model Graph/Workflow.v of add_workflow on top 
                 add_expr model: for every acyclic workflow with one final application,
                 any listing order, passthrough on and off, the from/via/internal triples
                 are exactly the data-flow graphs of the tool expressions plugged together
-                = the data-flow graph of the inlined expression; one node per resource;
-                inputs/output marked; source_types independent of the listing order)
+                (C12_plugged) = the data-flow graph of an application tree of the inlined
+                expression, as add_expr produces for that expression (C12_inline); one
+                node per resource; inputs/output marked; source_types independent of the
+                listing order and equal to the least annotated type (C12_source_types_*))
 correspondence  TransformationGraph.add_workflow of /repo vs the Gallina model on generated
                 workflows (from/via/internal triples, resource->node map, input and output
-                marks, compared up to blank-node renaming), several listing orders each
+                marks, compared up to blank-node renaming), several listing orders each;
+                Workflow.source_types of /repo vs the Gallina model source_types
 oracle          evaluated on the implementation only:
                 (a) an independently built graph (tool trees named by (resource, path),
                     plugged together as the property says) is isomorphic to the
                     implementation's structural triples and map;
                 (b) typed: the workflow graph and the graph add_expr gives for the inlined
-                    expression (built with the public parser) agree on every node's
-                    operator/type/label (isomorphic when no intermediate result is shared,
-                    otherwise the workflow graph is the inlined graph with the copies of
-                    each shared result merged);
+                    expression (built with the public parser, sources typed as
+                    Workflow.source_types says) agree on every node's operator/type/label:
+                    isomorphic when nothing is inlined twice, otherwise the workflow graph
+                    is the inlined graph with the copies of each shared result merged;
+                    both fail or both succeed;
                 (c) every listing order of the applications and of the sources, and
                     WorkflowDict / WorkflowGraph (RDF) / the harness' own Workflow give
-                    isomorphic typed graphs (or the same error);
-                (d) passthrough off: every tool input that is another tool's output is its
-                    own source node, typed as the tool typed in isolation types it, fed by
-                    the producer's node.
+                    isomorphic typed graphs (or all fail);
+                (d) passthrough off: the source nodes made for tool inputs carry the types
+                    the tools give those inputs when typed on their own;
+                (e) only typing errors are raised on well-formed workflows; a workflow
+                    without a unique final application is rejected with ValueError.
 """
 from __future__ import annotations
 
@@ -1250,6 +1255,23 @@ def fixed_cases():
     return out
 
 
+def finding_cases():
+    """minimal reproductions of recorded findings (run only when the finding is listed)"""
+    def mono(name, params, res):
+        return dict(kind="mono", name=name, params=params, res=res, bound=None)
+
+    def ap(n, *a):
+        return ("ap", n, list(a))
+    F0, F1 = ("F", "T0"), ("F", "T1")
+    lang = Lang({"T0": None, "T1": "T0"}, True, [
+        mono("p", [F0], "T0"), mono("q", [F1], "T0"), mono("g", ["T0", "T0"], "T0")], [])
+    # the workflow type-checks (s0 : F(T1)); its inlined expression `g (p 1) (q 1)` is rejected
+    wf = {"sources": ["s0"], "apps": [
+        {"out": "t0", "term": ap("q", ("in", 0, None)), "ins": ["s0"]},
+        {"out": "t1", "term": ap("g", ap("p", ("in", 1, None)), ("in", 0, None)), "ins": ["t0", "s0"]}]}
+    return {SIG_INFER: [("inference_order_example", lang, wf)]}
+
+
 # --------------------------------------------------------------------------
 # one case
 
@@ -1592,7 +1614,8 @@ def ensure_own_built():
     not be listed in _CoqProject yet)"""
     import fcntl
     files = ["Graph/AddExpr.v", "Graph/AddExprSpec.v", "Graph/AddExprProofs.v", "Graph/Workflow.v",
-             "Graph/WorkflowSpec.v", "Graph/WorkflowProofs.v", "Graph/SourceTypes.v"]
+             "Graph/WorkflowSpec.v", "Graph/WorkflowProofs.v", "Graph/WorkflowInline.v",
+             "Graph/SourceTypes.v"]
     C.BUILD.mkdir(exist_ok=True)
     lock = open(C.BUILD / ".lock", "w")
     fcntl.flock(lock, fcntl.LOCK_EX)
@@ -1633,6 +1656,11 @@ def main(tier: str, seed: int, replay: str | None = None) -> int:
     for name, lang, wf in fixed_cases():
         lang.build()
         cases.append(Case(name, lang, wf))
+    for sig, items in finding_cases().items():
+        if rep.known(sig) is not None:
+            for name, lang, wf in items:
+                lang.build()
+                cases.append(Case(name, lang, wf))
     nfixed = len(cases)
     nlang, per = (45, 4) if tier == "quick" else (420, 5)
     for _ in range(nlang):
